@@ -107,6 +107,26 @@ func (g *gen) aliases(name string, conflictOK bool) []string {
 	if conflictOK && g.r.Intn(12) == 0 {
 		out = append(out, clusterNames[g.r.Intn(len(clusterNames))]) // another cluster's own name (or its own)
 	}
+	return g.messUp(name, out)
+}
+
+// messUp: nothing validates secureServing.serverNames, so lists carry the cluster's OWN name (any case) and repeated
+// entries (same or another case variant), in every position — in front of, between and behind the real aliases.
+func (g *gen) messUp(name string, l []string) []string {
+	out := append([]string{}, l...)
+	ins := func(x string) {
+		i := g.r.Intn(len(out) + 1)
+		out = append(out[:i], append([]string{x}, out[i:]...)...)
+	}
+	if g.r.Intn(3) == 0 {
+		ins(randCase(g.r, name))
+		if g.r.Intn(3) == 0 {
+			ins(randCase(g.r, name))
+		}
+	}
+	for n := g.r.Intn(3); n > 0 && len(l) > 0 && g.r.Intn(2) == 0; n-- {
+		ins(randCase(g.r, l[g.r.Intn(len(l))]))
+	}
 	return out
 }
 
@@ -225,8 +245,25 @@ func template(r *rand.Rand, kind, point string) Case {
 		}
 	}
 	aa := []string{randCase(r, aliasPool[r.Intn(len(aliasPool))])}
-	if kind != "drop-alias" && r.Intn(2) == 0 {
+	if r.Intn(3) == 0 {
+		if b := aliasPool[r.Intn(len(aliasPool))]; !strings.EqualFold(b, aa[0]) {
+			aa = append(aa, randCase(r, b))
+		}
+	}
+	if kind != "drop-alias" && r.Intn(3) == 0 {
 		aa = nil
+	}
+	if kind == "delete-cluster" || kind == "recreate-cluster" || kind == "cycle-delete-cluster" || r.Intn(2) == 0 {
+		// deletions always meet a messed-up list: own name and repeats in front of / between / behind the aliases
+		for i := 0; i < 4; i++ {
+			if m := g.messUp(A, aa); len(m) > len(aa) || len(aa) == 0 {
+				if len(aa) == 0 && r.Intn(2) == 0 {
+					m = append(m, randCase(r, A))
+				}
+				aa = m
+				break
+			}
+		}
 	}
 	g.apply(A, aa, sa)
 	// disable -> re-enable cycles before anything is removed: the health-check loop of that endpoint is stopped and
@@ -289,6 +326,16 @@ func template(r *rand.Rand, kind, point string) Case {
 		cycle()
 	}
 	hostBefore := g.hostOf(A)
+	formerHosts := []string{A}
+	for _, x := range aa {
+		dup := false
+		for _, y := range formerHosts {
+			dup = dup || strings.EqualFold(x, y)
+		}
+		if !dup {
+			formerHosts = append(formerHosts, x)
+		}
+	}
 	if r.Intn(3) == 0 {
 		g.storm(g.hostOf(A)) // an unscripted race with the removal
 		if withB && r.Intn(2) == 0 {
@@ -353,6 +400,12 @@ func template(r *rand.Rand, kind, point string) Case {
 	if point == "before" {
 		for i := 0; i < nv; i++ {
 			victims = append(victims, g.start(hostBefore, holds[r.Intn(len(holds))]))
+		}
+	}
+	if kind == "delete-cluster" || kind == "cycle-delete-cluster" {
+		// every former host of the deleted cluster: 503, no upstream reached
+		for _, h := range formerHosts {
+			g.start(randCase(r, h), "stream")
 		}
 	}
 	if r.Intn(4) == 0 && withB {
